@@ -2,6 +2,7 @@ package sim
 
 import (
 	"fmt"
+	"reflect"
 	"runtime/debug"
 	"sort"
 	"strings"
@@ -209,18 +210,39 @@ func (n *Net) Add(id party.ID, rngLabel string, honest bool, tag string, mk func
 	node := &Node{ID: id, Rng: NewDRBG(rngLabel), Honest: honest, Tag: tag}
 	var err error
 	old := n.R.Use(node.Rng)
-	func() {
+	done := make(chan struct{})
+	// construction runs on a helper goroutine under the watchdog: a constructor that never returns
+	// (e.g. one that fills its own outgoing channel before anybody can drain it) is a hang, not a
+	// deadlock of the simulator.
+	go func() {
+		defer close(done)
 		defer func() {
 			if p := recover(); p != nil {
 				st := string(debug.Stack())
 				node.Panic = fmt.Sprint(p) + "\n" + st
 				node.PanicFn = LibFrame(st)
-				node.Dead = true
 			}
 		}()
-		node.H, err = mk()
+		h, e := mk()
+		if e != nil || h == nil || reflect.ValueOf(h).IsNil() {
+			err = e
+			if err == nil {
+				err = fmt.Errorf("constructor returned no handler")
+			}
+			return
+		}
+		node.H = h
 	}()
+	select {
+	case <-done:
+	case <-time.After(n.CallTimeout / 4):
+		node.Hang = true
+		err = fmt.Errorf("handler construction did not return within the watchdog bound")
+	}
 	n.R.Use(old)
+	if node.Hang {
+		node.H = nil
+	}
 	n.Nodes = append(n.Nodes, node)
 	if err != nil || node.H == nil || node.Panic != "" {
 		node.Dead = true
